@@ -114,16 +114,16 @@ class DefaultPostStep(_HookBase):
             return
         yield 'exactly_one_niter_and_one_residual_record', len(by['niter']) == 1 and len(by['residual_post_step']) == 1
         k, v = by['niter'][0]
-        yield from self.key_clauses(st, k, L.time, -1, S.status.iter, 'niter', 'niter')
+        yield from self.key_clauses(st, k, L.status.time, -1, S.status.iter, 'niter', 'niter')
         yield 'niter:value_is_the_iteration_counter', seq(v, S.status.iter)
         k, v = by['residual_post_step'][0]
-        yield from self.key_clauses(st, k, L.time, 0, -1, 'residual_post_step', 'residual')
+        yield from self.key_clauses(st, k, L.status.time, 0, -1, 'residual_post_step', 'residual')
         yield 'residual:value_is_the_levels_residual', seq(v, L.status.residual)
         rc = by['_recomputed']
         yield 'recomputed_markers_at_start_and_end_time', len(rc) <= 2 and all(bool(seq(v, S.status.restart)) is True or v is S.status.restart for _, v in rc)
         for k, v in rc:
             yield 'recomputed:restart_count', seq(k.num_restarts, S.status.restarts_in_a_row)
-            yield 'recomputed:time', Or(seq(k.time, L.time), seq(k.time, L.time + L.dt))
+            yield 'recomputed:time', Or(seq(k.time, L.status.time), seq(k.time, L.status.time + L.params.dt))
 
 
 class DefaultPostIteration(_HookBase):
@@ -141,7 +141,7 @@ class DefaultPostIteration(_HookBase):
         yield 'one_record', len(new) == 1
         if len(new) == 1:
             k, v = new[0]
-            yield from self.key_clauses(st, k, L.time, -1, S.status.iter, 'residual_post_iteration', 'res')
+            yield from self.key_clauses(st, k, L.status.time, -1, S.status.iter, 'residual_post_iteration', 'res')
             yield 'value_is_the_levels_residual', seq(v, L.status.residual)
 
 
@@ -162,7 +162,7 @@ class _OneRecord(_HookBase):
         if len(new) != 1:
             return
         k, v = new[0]
-        yield from self.key_clauses(st, k, L.time + L.dt if self.at_end else L.time, 0, S.status.iter, self.typ, self.typ)
+        yield from self.key_clauses(st, k, L.status.time + L.params.dt if self.at_end else L.status.time, 0, S.status.iter, self.typ, self.typ)
         val = self.value(st)
         yield 'value', (v is val) if not isinstance(val, (int, float)) and not sym.is_sym(val) else seq(v, val)
 
@@ -190,7 +190,7 @@ class LogStepSizePostStep(_OneRecord):
     typ = 'dt'
 
     def value(self, st):
-        return st.L.dt
+        return st.L.params.dt
 
 
 class LogIterationsPostStep(_OneRecord):
@@ -305,7 +305,7 @@ class LogWorkPostStep(_HookBase):
         new = self.new_entries(st)
         yield 'one_record_per_counter', sorted(k.type for k, _ in new) == ['work_newton', 'work_rhs']
         for k, v in new:
-            yield from self.key_clauses(st, k, L.time + L.dt, 0, S.status.iter, k.type, k.type)
+            yield from self.key_clauses(st, k, L.status.time + L.params.dt, 0, S.status.iter, k.type, k.type)
             yield f'{k.type}:value_is_work_since_pre_step_of_this_slot', seq(v, st.more[k.type[5:]])
 
 
@@ -570,21 +570,21 @@ class LogGlobalError(_ErrBase):
         yield 'record_types', set(by) == {f'e_global{sfx}', f'e_global_rel{sfx}'} and all(len(v) == 1 for v in by.values())
         if set(by) != {f'e_global{sfx}', f'e_global_rel{sfx}'}:
             return
-        yield 'reference_solution_asked_at_the_end_time_of_the_step', len(st.exact_calls) == 1 and bool(seq(st.exact_calls[0]['t'], L.time + L.dt)) is True and st.exact_calls[0]['u_init'] is None
+        yield 'reference_solution_asked_at_the_end_time_of_the_step', len(st.exact_calls) == 1 and bool(seq(st.exact_calls[0]['t'], L.status.time + L.params.dt)) is True and st.exact_calls[0]['u_init'] is None
         if len(st.exact_calls) != 1:
             return
         ref = st.exact_calls[0]['out']
         k, v = by[f'e_global{sfx}'][0]
-        yield from self.key_clauses(st, k, L.time + L.dt, 0, S.status.iter, f'e_global{sfx}', 'abs')
+        yield from self.key_clauses(st, k, L.status.time + L.params.dt, 0, S.status.iter, f'e_global{sfx}', 'abs')
         yield 'abs:value_is_norm_of_reference_minus_fresh_end_value', seq(v, abs(ref - st.computed))
         k, v = by[f'e_global_rel{sfx}'][0]
-        yield from self.key_clauses(st, k, L.time + L.dt, 0, S.status.iter, f'e_global_rel{sfx}', 'rel')
+        yield from self.key_clauses(st, k, L.status.time + L.params.dt, 0, S.status.iter, f'e_global_rel{sfx}', 'rel')
         yield 'rel:value_is_relative_to_the_reference', seq(v, abs(ref - st.computed) / abs(ref))
 
     def canary(self, st, old, result, exc):
         by = self.by_type(st)
         k, v = by[f"e_global{st.inst['suffix']}"][0]
-        yield 'canary:keyed_at_start_time', seq(k.time, st.L.time)
+        yield 'canary:keyed_at_start_time', seq(k.time, st.L.status.time)
 
 
 class LogLocalError(_ErrBase):
@@ -603,13 +603,13 @@ class LogLocalError(_ErrBase):
         yield 'one_local_error_record', len(recs) == 1
         if len(recs) != 1:
             return
-        yield 'reference_started_from_the_steps_start_value_and_time', (len(st.exact_calls) == 1 and bool(seq(st.exact_calls[0]['t'], L.time + L.dt)) is True and st.exact_calls[0]['u_init'] is not None
-                                                                        and bool(veq(st.exact_calls[0]['u_init'], st.u0)) is True and bool(seq(st.exact_calls[0]['t_init'], L.time)) is True)
+        yield 'reference_started_from_the_steps_start_value_and_time', (len(st.exact_calls) == 1 and bool(seq(st.exact_calls[0]['t'], L.status.time + L.params.dt)) is True and st.exact_calls[0]['u_init'] is not None
+                                                                        and bool(veq(st.exact_calls[0]['u_init'], st.u0)) is True and bool(seq(st.exact_calls[0]['t_init'], L.status.time)) is True)
         if len(st.exact_calls) != 1:
             return
         yield 'reference_gets_a_copy_of_the_start_value', st.exact_calls[0]['u_init_obj'] is not st.u0_obj and L.u[0] is st.u0_obj and bool(veq(L.u[0], st.u0)) is True
         k, v = recs[0]
-        yield from self.key_clauses(st, k, L.time + L.dt, 0, S.status.iter, f'e_local{sfx}', 'local')
+        yield from self.key_clauses(st, k, L.status.time + L.params.dt, 0, S.status.iter, f'e_local{sfx}', 'local')
         yield 'value_is_norm_of_reference_minus_fresh_end_value', seq(v, abs(st.exact_calls[0]['out'] - st.computed))
 
     def canary(self, st, old, result, exc):
@@ -643,7 +643,7 @@ class LogGlobalErrorPostRun(_ErrBase):
         st.h.pre_step(S, 0)
         st.h.post_step(T, 0)
         st.h.post_step(S, 0)  # the last step of the block reports last
-        st.t_end, st.restarts = L.time + L.dt, S.status.restarts_in_a_row
+        st.t_end, st.restarts = L.status.time + L.params.dt, S.status.restarts_in_a_row
         # prepare_next_block of the convergence controllers: new step size, restart counter reset / changed
         L.params.dt = mk.real('dt_after_the_last_step')
         S.status.restarts_in_a_row = mk.int('restarts_after_the_last_step')
@@ -683,7 +683,7 @@ class LogGlobalErrorPostRun(_ErrBase):
     def canary(self, st, old, result, exc):
         by = self.by_type(st)
         if 'e_global_post_run' in by:
-            yield 'canary:keyed_with_the_new_step_size', seq(by['e_global_post_run'][0][0].time, st.L.time + st.L.dt)
+            yield 'canary:keyed_with_the_new_step_size', seq(by['e_global_post_run'][0][0].time, st.L.status.time + st.L.params.dt)
         else:
             yield 'canary:records_something', any(t.startswith('e_global') for t in by)
 
